@@ -16,7 +16,7 @@ TEXT = {
  'C04': ('Heap sort proved to return a sorted permutation for every length and every total preorder (fuel sufficiency included); key-algebra commutation proved under the group law; all 15+ API functions tied by correspondence incl. chains of mixed tweaks, cancelling combines, sort lengths to 200.',
          'Lean kernel + Mathlib for the algebra part; statements about arbitrary parsed keys that need n·Q = ∞ carry that hypothesis explicitly; tie to C = differential testing.'),
  'C05': ('SHA-256 streaming object proved equal to one-shot SHA-256 for every chunking and length (no size hypothesis), tagged hashes / midstates / HMAC / RFC 6979 output length, kernel-checked NIST/RFC vectors; field, scalar, group, ecmult, multi-scalar internals tied by correspondence in 3–6 build configurations (int128 native/struct, int64, asm, VERIFY, -O2, several table sizes) with edge-biased operands, all addition special cases, every table entry used.',
-         'Lean kernel; limb-level proofs (5x52 mul/sqr via translated MiniC + interval checker) are being added; safegcd, assembly and ecmult algorithm internals are tied by correspondence only.'),
+         'Lean kernel; limb-level theorems are about the IR REGENERATED from the C sources (5x52 and 10x26 mul/sqr, normalize, normalize_weak, add, mul_int, half, negate; translation validated by running IR and C function on the same limbs); known finding F4 (10x26 normalisation wrong on the magnitude-32 extreme element); scalar limb kernels, safegcd, assembly and ecmult algorithm internals are tied by correspondence only.'),
  'C06': ('Leakage-trace non-interference proved for the translated constant-time primitives via a verified taint checker; the compiled binary is observed under valgrind with secrets undefined (own copy of the maintainers\' secret-argument list, several configurations).',
          'Source-level leakage model of the translator; compiler/CPU behaviour outside any Lean model (partial); valgrind observes executed paths only.'),
  'C07': ('Index/length arithmetic and closure (parsed ⇒ valid) of every parser proved on the model; every entry point run under ASan+UBSan+leak detection with callback counters on structured mutations of valid artefacts and random bytes.',
@@ -42,9 +42,9 @@ TEXT = {
  'C17': ('Incremental aggregation proved equal to one-shot for every split; length and guard theorems; verify unfolded to the spec equation; correspondence over all 2-/3-way splits, buffers, re-encodings (incl. s = n for the empty aggregate).',
          'Lean kernel; completeness needs the group law; tie to C = differential testing.'),
  'C18': ('ECDH/XDH agreement under the group law; ElligatorSwift map/inverse modelled branch by branch; correspondence incl. all exceptional inputs and BIP-324 vectors.',
-         'Lean kernel + Mathlib; ElligatorSwift round-trip field identities are partial until proved; ecmult_const_xonly modelled at spec level.'),
+         'Lean kernel + Mathlib; ecmult_const_xonly modelled at spec level; Wycheproof ECDH and BIP-324 vectors enforced against the model.'),
  'C19': ('Norm-argument prover/verifier, transcript and generator lists modelled; length/guard theorems; correspondence with mutations, scratch sizes, prefix consistency and leak tracking.',
-         'Lean kernel; completeness of the folding argument is partial until proved; NULL scratch in verify crashes (recorded finding).'),
+         'Lean kernel + Mathlib; completeness of the norm argument proved for every vector length 2^a, 2^b (generators d·G, or arbitrary valid generators with the order hypothesis made explicit: cofactor 1 is not proved); rho = 0 is accepted by the prover and rejected by the verifier (proved, documented); the internal verifier dereferences a NULL scratch (observation).'),
  'C20': ('No function references writable static storage (theorem re-checked against the object code of the current tree); blinding state machine modelled byte-exactly and proved balanced over all histories; API results compared across random context histories, static context dichotomy, allocation counts, and 2–16 threads under TSan.',
          'Statics audit trusts gcc/objdump section and relocation data; data-race freedom of the binary is observed by TSan on executed accesses (partial).'),
 }
@@ -81,7 +81,7 @@ def main():
                      'kind_free_text': 'Lean 4.33 + Mathlib theorems over an executable model (lean/SecpZkp), translator tools/c2lean.py, C harness + Python generators for the model/implementation correspondence'}],
         'checks': checks,
         'not_applicable': na,
-        'notes': 'See DESIGN.md. known_findings.json lists genuine defects (fixed: F1 whitelist empty key list).',
+        'notes': 'See DESIGN.md (section 10 as built). known_findings.json lists genuine defects: fixed F1, F2 (whitelist), F3 (rangeproof rewind); recorded F4 (10x26 normalisation at the magnitude-32 extreme, C05).',
     }
     json.dump(m, open(os.path.join(ROOT, 'MANIFEST.json'), 'w'), indent=1)
     print('claimed:', [c['property_id'] for c in checks])
